@@ -829,7 +829,7 @@ fn corpus(idx: u64, deep_levels: usize) -> Option<(&'static str, Vec<u8>)> {
         _ => None,
     }
 }
-const CORPUS_LEN: u64 = 7;
+const CORPUS_LEN: u64 = 8;
 
 /// A hand-assembled STRN v1 image with one value of each of the 31 tags (literal tag numbers,
 /// independent of the encoder under test) and what `load` must return for it: files written by
@@ -1038,6 +1038,17 @@ fn store_child(args: &Args) -> i32 {
     let path = PathBuf::from(args.extra.get("path").expect("--path"));
     let n = args.only.expect("--only");
     let case = gen_crash_case(args.seed, n);
+    if let Some(k) = args.extra.get("fsize").and_then(|v| v.parse::<u64>().ok()) {
+        // a REAL partial write: the kernel completes the first `k` bytes of the write and kills the
+        // process with SIGXFSZ when `write_all` asks for the rest
+        let lim = libc::rlimit {
+            rlim_cur: k,
+            rlim_max: k,
+        };
+        unsafe {
+            libc::setrlimit(libc::RLIMIT_FSIZE, &lim);
+        }
+    }
     let store = FileRetainStore::new(path);
     match store.store(&case.new) {
         Ok(()) => 0,
@@ -1209,6 +1220,189 @@ impl CrashRig {
 }
 
 // ------------------------------------------------------------------------------------------------
+// RetainManager::save_snapshot sequences (change detection)
+// ------------------------------------------------------------------------------------------------
+
+fn gen_floaty(rng: &mut Rng) -> Value {
+    match rng.below(4) {
+        0 => Value::Real(f32::from_bits(*rng.pick(F32S))),
+        1 => Value::LReal(f64::from_bits(*rng.pick(F64S))),
+        2 => Value::Array(ArrayValue {
+            elements: (0..3).map(|_| Value::Real(f32::from_bits(*rng.pick(F32S)))).collect(),
+            dimensions: vec![(0, 2)],
+        }),
+        _ => {
+            let mut fields = IndexMap::new();
+            fields.insert(SmolStr::new("gain"), Value::LReal(f64::from_bits(*rng.pick(F64S))));
+            fields.insert(SmolStr::new("n"), Value::Int(rng.below(4) as i16));
+            Value::Struct(StructValue {
+                type_name: SmolStr::new("PID"),
+                fields,
+            })
+        }
+    }
+}
+
+/// What a PLC cycle may do to a retained value between two saves.
+fn evolve(rng: &mut Rng, v: &Value) -> Value {
+    match v {
+        Value::Real(x) => {
+            let b = x.to_bits();
+            if b & 0x7FFF_FFFF == 0 && rng.bool() {
+                Value::Real(f32::from_bits(b ^ 0x8000_0000)) // the sign of zero flips
+            } else {
+                Value::Real(f32::from_bits(*rng.pick(F32S)))
+            }
+        }
+        Value::LReal(x) => {
+            let b = x.to_bits();
+            if b & 0x7FFF_FFFF_FFFF_FFFF == 0 && rng.bool() {
+                Value::LReal(f64::from_bits(b ^ 0x8000_0000_0000_0000))
+            } else {
+                Value::LReal(f64::from_bits(*rng.pick(F64S)))
+            }
+        }
+        Value::Array(a) => Value::Array(ArrayValue {
+            elements: a
+                .elements
+                .iter()
+                .map(|e| if rng.bool() { evolve(rng, e) } else { e.clone() })
+                .collect(),
+            dimensions: a.dimensions.clone(),
+        }),
+        Value::Struct(st) => Value::Struct(StructValue {
+            type_name: st.type_name.clone(),
+            fields: st
+                .fields
+                .iter()
+                .map(|(k, f)| (k.clone(), if rng.bool() { evolve(rng, f) } else { f.clone() }))
+                .collect(),
+        }),
+        Value::Int(x) => Value::Int(x.wrapping_add(1)),
+        Value::Bool(b) => Value::Bool(!b),
+        other => {
+            if rng.chance(1, 3) {
+                gen_value(rng, 1)
+            } else {
+                other.clone()
+            }
+        }
+    }
+}
+
+/// Flip the sign of some floating-point zeros and change nothing else.
+fn flip_zeros(rng: &mut Rng, v: &Value) -> Value {
+    match v {
+        Value::Real(x) if x.to_bits() & 0x7FFF_FFFF == 0 && rng.bool() => {
+            Value::Real(f32::from_bits(x.to_bits() ^ 0x8000_0000))
+        }
+        Value::LReal(x) if x.to_bits() & 0x7FFF_FFFF_FFFF_FFFF == 0 && rng.bool() => {
+            Value::LReal(f64::from_bits(x.to_bits() ^ 0x8000_0000_0000_0000))
+        }
+        Value::Array(a) => Value::Array(ArrayValue {
+            elements: a.elements.iter().map(|e| flip_zeros(rng, e)).collect(),
+            dimensions: a.dimensions.clone(),
+        }),
+        Value::Struct(st) => Value::Struct(StructValue {
+            type_name: st.type_name.clone(),
+            fields: st.fields.iter().map(|(k, f)| (k.clone(), flip_zeros(rng, f))).collect(),
+        }),
+        other => other.clone(),
+    }
+}
+
+fn gen_mgr_seq(rng: &mut Rng) -> Vec<RetainSnapshot> {
+    let n = 1 + rng.below(4) as usize;
+    let mut cur: Vec<(String, Value)> = (0..n)
+        .map(|i| {
+            let v = if rng.chance(3, 5) { gen_floaty(rng) } else { gen_value(rng, 2) };
+            (format!("g{i}"), v)
+        })
+        .collect();
+    let steps = 2 + rng.below(4) as usize;
+    let bad_from = rng.chance(1, 6).then(|| rng.below(steps as u64) as usize);
+    let mut seq = Vec::new();
+    for step in 0..steps {
+        if step > 0 && step + 1 == steps && rng.chance(1, 3) {
+            for (_, v) in cur.iter_mut() {
+                *v = flip_zeros(rng, v);
+            }
+        } else if step > 0 && !rng.chance(1, 5) {
+            for (_, v) in cur.iter_mut() {
+                if rng.chance(1, 2) {
+                    *v = evolve(rng, v);
+                }
+            }
+        }
+        let mut s = RetainSnapshot::default();
+        for (k, v) in &cur {
+            s.insert(k.as_str(), v.clone());
+        }
+        if let Some(j) = bad_from {
+            // an unretainable global appears for two consecutive saves (both must fail)
+            if step == j || step == j + 1 {
+                s.insert("bad", Value::Reference(None));
+            }
+        }
+        seq.push(s);
+    }
+    seq
+}
+
+fn negzero_witness() -> Vec<RetainSnapshot> {
+    let mut s1 = RetainSnapshot::default();
+    s1.insert("x", Value::Real(0.0));
+    let mut s2 = RetainSnapshot::default();
+    s2.insert("x", Value::Real(-0.0));
+    vec![s1, s2]
+}
+
+fn do_mgr(seq: &[RetainSnapshot], path: &Path, out: &mut Out) {
+    use trust_runtime::retain::RetainManager;
+    let mut line = format!("mgr {}", seq.len());
+    for s in seq {
+        line.push(' ');
+        line.push_str(&show_snapshot(s));
+    }
+    out.line(line);
+    let _ = std::fs::remove_file(path);
+    let mut mgr = RetainManager::default();
+    mgr.configure(
+        Some(Box::new(FileRetainStore::new(path.to_path_buf()))),
+        Some(Duration::from_millis(0)),
+        Duration::ZERO,
+    );
+    let mut res = Vec::new();
+    let mut last_ok = "ok 0".to_string();
+    for (i, s) in seq.iter().enumerate() {
+        mgr.mark_dirty();
+        let now = Duration::from_millis(i as i64 + 1);
+        let r = std::panic::catch_unwind(std::panic::AssertUnwindSafe(|| mgr.save_snapshot(s.clone(), now)));
+        res.push(match r {
+            Err(_) => "panic".to_string(),
+            Ok(Ok(())) => {
+                last_ok = format!("ok {}", show_snapshot(s));
+                "ok".to_string()
+            }
+            Ok(Err(e)) => format!("err:{}", err_class(&e)),
+        });
+    }
+    // the next process: a fresh store on the same path
+    let l = std::panic::catch_unwind(|| FileRetainStore::new(path.to_path_buf()).load());
+    let l = match l {
+        Err(_) => "panic".to_string(),
+        Ok(r) => show_load(&r),
+    };
+    out.line(format!("impl res={} load={}", res.join(","), l));
+    out.line(format!("# mgr last={last_ok}"));
+    out.count("mgr:sequences");
+    out.add("mgr:saves", seq.len() as u64);
+    if l != last_ok {
+        out.count("mgr:load-differs-from-last-saved");
+    }
+}
+
+// ------------------------------------------------------------------------------------------------
 // main
 // ------------------------------------------------------------------------------------------------
 
@@ -1341,22 +1535,45 @@ fn do_crash(n: u64, rig: &CrashRig, out: &mut Out) -> Result<(), String> {
     }
     kept_kills.push(kills[ops.len()].clone());
 
-    // 3. partial writes: the temp file holds a proper prefix of the new image
+    // 3. partial writes: the child runs with RLIMIT_FSIZE = k, so the kernel cuts the write after k
+    //    bytes and kills the process (SIGXFSZ) when write_all retries; the temp file then holds
+    //    exactly the first k bytes of the new image
     let mut ks: Vec<usize> = Vec::new();
     let mut partial = Vec::new();
     if !new_bytes.is_empty() {
         let mut rng = Rng::for_case(rig.seed ^ 0x5151, n);
         let l = new_bytes.len();
-        ks = vec![0, 1, l / 2, l - 1, l];
+        ks = vec![0, 1, l / 2, l - 1];
         for _ in 0..3 {
-            ks.push(rng.below(l as u64 + 1) as usize);
+            ks.push(rng.below(l as u64) as usize);
         }
         ks.sort();
         ks.dedup();
         for &k in &ks {
             rig.prepare(&case);
-            std::fs::write(&rig.tmp, &new_bytes[..k]).expect("plant partial tmp");
-            partial.push(rig.load_class(&old_text, &new_text));
+            let exe = std::env::current_exe().expect("current_exe");
+            let st = Command::new(exe)
+                .args(["c10", "--mode", "storechild", "--seed", &rig.seed.to_string(), "--only", &n.to_string()])
+                .arg("--fsize")
+                .arg(k.to_string())
+                .arg("--path")
+                .arg(&rig.main)
+                .stdin(Stdio::null())
+                .stdout(Stdio::null())
+                .stderr(Stdio::null())
+                .status()
+                .expect("spawn store child");
+            if st.signal() != Some(libc::SIGXFSZ) {
+                return Err(format!("RLIMIT_FSIZE={k} did not kill the store child: {st:?}"));
+            }
+            let on_disk = std::fs::read(&rig.tmp).ok();
+            let what = match &on_disk {
+                Some(b) if b[..] == new_bytes[..k] => rig.load_class(&old_text, &new_text),
+                Some(b) => format!("tmp-holds-{}-bytes-not-the-{k}-byte-prefix", b.len()),
+                None => "tmp-missing".to_string(),
+            };
+            partial.push(what);
+            out.count("crash:partial-writes");
         }
     }
     let mid_all_old = mid.iter().all(|c| c == "old");
@@ -1379,10 +1596,40 @@ fn do_crash(n: u64, rig: &CrashRig, out: &mut Out) -> Result<(), String> {
     Ok(())
 }
 
+/// Developer probe (not part of the check): `RetainManager::save_snapshot` compares the new snapshot
+/// with the last saved one using `PartialEq`, under which `0.0 == -0.0`.
+fn probe_manager() -> i32 {
+    use trust_runtime::retain::RetainManager;
+    let dir = work_dir();
+    let path = dir.join("probe.retain");
+    let mut mgr = RetainManager::default();
+    mgr.configure(
+        Some(Box::new(FileRetainStore::new(path.clone()))),
+        Some(Duration::from_millis(0)),
+        Duration::ZERO,
+    );
+    let mut s1 = RetainSnapshot::default();
+    s1.insert("x", Value::Real(0.0));
+    let mut s2 = RetainSnapshot::default();
+    s2.insert("x", Value::Real(-0.0));
+    mgr.mark_dirty();
+    println!("save s1: {:?}", mgr.save_snapshot(s1.clone(), Duration::from_millis(1)));
+    mgr.mark_dirty();
+    println!("should_save: {}", mgr.should_save(Duration::from_millis(2)));
+    println!("save s2: {:?}", mgr.save_snapshot(s2.clone(), Duration::from_millis(2)));
+    let l = mgr.load();
+    println!("s1   = {}", show_snapshot(&s1));
+    println!("s2   = {}", show_snapshot(&s2));
+    println!("load = {}", show_load(&l));
+    let _ = std::fs::remove_dir_all(&dir);
+    0
+}
+
 pub fn run(args: &Args) -> i32 {
     match args.extra.get("mode").map(|s| s.as_str()) {
         Some("decchild") => return dec_child(args),
         Some("storechild") => return store_child(args),
+        Some("probe-manager") => return probe_manager(),
         _ => {}
     }
     let crash_cases = args.extra_usize("crash", 4) as u64;
@@ -1401,7 +1648,12 @@ pub fn run(args: &Args) -> i32 {
     for n in args.case_numbers() {
         let mut rng = Rng::for_case(args.seed, n);
         out.line(format!("case {n}"));
-        if n < CORPUS_LEN {
+        if n == CORPUS_LEN - 1 {
+            // witness of the open finding C10-negzero-not-saved
+            out.count("corpus:mgr-negzero");
+            do_mgr(&negzero_witness(), &path, &mut out);
+            out.line("tag nontrivial corpus");
+        } else if n < CORPUS_LEN {
             let (name, bytes) = corpus(n, deep_levels).unwrap();
             out.count(&format!("corpus:{name}"));
             do_dec(&bytes, &mut dec, &mut out);
@@ -1417,6 +1669,10 @@ pub fn run(args: &Args) -> i32 {
                     rc = 4;
                 }
             }
+        } else if rng.chance(1, 8) {
+            let seq = gen_mgr_seq(&mut rng);
+            do_mgr(&seq, &path, &mut out);
+            out.line("tag nontrivial mgr");
         } else if rng.chance(2, 5) {
             let k = 1 + rng.below(2);
             let mut nt = false;
